@@ -26,6 +26,9 @@ pub struct Spec {
     pub events: usize,
     /// the requester sends one more event after its request returned (only meaningful when a stream is left untargeted)
     pub late: bool,
+    /// the consumer of an ended stream immediately subscribes again (with every other id in use it gets the same id back,
+    /// possibly while the end request is still completing): the new stream was never targeted and must not end
+    pub recreate: bool,
 }
 
 /// runs a future of the crate on a private current-thread tokio runtime whose clock is paused (time advances when idle)
@@ -34,16 +37,18 @@ pub fn on_paused_tokio<F: std::future::Future>(fut: F) -> F::Output {
     rt.block_on(fut)
 }
 
-macro_rules! body_common { ($chan:ident, $spec:ident, $bodies:ident, $send:ident, $streams:expr) => {{
+macro_rules! body_common { ($chan:ident, $spec:ident, $bodies:ident, $send:ident, $streams:expr, $create:ident) => {{
     // thread 0: the requester
     {
         let chan = $chan.clone();
-        let (action, late) = ($spec.action, $spec.late);
+        let (action, late, recreate) = ($spec.action, $spec.late, $spec.recreate);
         $bodies.push(Box::new(move || {
             let c = static_ref(&chan);
             mcx::rec("req.call", 0, 0);
             match action {
                 Action::CancelAll => c.cancel_all_streams(),
+                // with re-subscription the id may never be seen vacant: the requester gives up after 6 virtual milliseconds (it drops the future)
+                Action::EndOne(id) if recreate => { let r = on_paused_tokio(async { tokio::time::timeout(Duration::from_millis(6), c.gracefully_end_stream(id, Duration::ZERO)).await }); mcx::rec("req.ended", id as i64, r.map(|ok| ok as i64).unwrap_or(-1)) }
                 Action::EndOne(id) => { let ok = on_paused_tokio(c.gracefully_end_stream(id, Duration::ZERO)); mcx::rec("req.ended", id as i64, ok as i64) }
             }
             mcx::rec("req.ret", 0, 0);
@@ -61,7 +66,16 @@ macro_rules! body_common { ($chan:ident, $spec:ident, $bodies:ident, $send:ident
     }
     // threads 2..: driven streams
     for (s, stream) in $streams.into_iter().enumerate() {
-        $bodies.push(Box::new(move || driven_consumer(stream, s as i64)) as mcx::Body);
+        let chan = $chan.clone();
+        let recreate = $spec.recreate;
+        $bodies.push(Box::new(move || {
+            driven_consumer(stream, s as i64);
+            if recreate {
+                let (again, id) = chan.$create();
+                mcx::rec("recreated", id as i64, s as i64);
+                driven_consumer(again, 10 + s as i64);
+            }
+        }) as mcx::Body);
     }
     // judge
     {
@@ -91,7 +105,7 @@ where C: FullDuplexUniChannel<ItemType = u32> + Send + Sync + 'static,
     let chan: Arc<C> = C::new("c07");
     let mut bodies: Vec<mcx::Body> = Vec::new();
     let streams: Vec<_> = (0..spec.streams).map(|_| chan.create_stream().0).collect();
-    body_common!(chan, spec, bodies, uni_send, streams);
+    body_common!(chan, spec, bodies, uni_send, streams, create_stream);
     let sp = spec.clone();
     Instance { bodies, check: Box::new(move |out| {
         let mut v = judge(out, &sp, false);
@@ -115,7 +129,7 @@ where C: FullDuplexMultiChannel<ItemType = u32> + Send + Sync + 'static,
     if spec.multi == Some(MultiKind::ML) { cleanup_mmap(&name) }
     let mut bodies: Vec<mcx::Body> = Vec::new();
     let streams: Vec<_> = (0..spec.streams).map(|_| chan.create_stream_for_new_events().0).collect();
-    body_common!(chan, spec, bodies, multi_send, streams);
+    body_common!(chan, spec, bodies, multi_send, streams, create_stream_for_new_events);
     let sp = spec.clone();
     Instance { bodies, check: Box::new(move |out| {
         let mut v = judge(out, &sp, true);
@@ -139,6 +153,16 @@ fn judge(out: &Outcome, sp: &Spec, multi: bool) -> Vec<(String, String)> {
     let st1: Vec<(i64, i64)> = out.log.iter().filter(|r| r.op == "q.thread").map(|r| (r.a, r.b)).collect();
     if st1.is_empty() { return v }
     let code = |t: usize| st1.iter().find(|x| x.0 as usize == t).map(|x| x.1).unwrap_or(-1);
+    if sp.recreate {
+        // the requester may legitimately still be waiting for the id to become vacant (it was taken again at once); what matters:
+        // the re-created stream was never targeted, so its consumer must still be there
+        for s in 0..sp.streams {
+            if out.log.iter().any(|r| r.op == "recreated" && r.b == s as i64) && code(first_consumer + s) == 0 {
+                v.push(("untargeted-ended".into(), format!("the stream created after stream {s} had ended was never targeted, yet it answered end-of-stream: {}", mcx::fmt_log(&out.log))));
+            }
+        }
+        return v;
+    }
     if (0..first_consumer + sp.streams).any(|t| code(t) >= 2) {
         v.push(("stall".into(), format!("threads blocked spinning at quiescence: {:?}", st1)));
         return v;
@@ -217,7 +241,7 @@ pub fn scenarios(tier: Tier) -> Vec<ScenarioDef> {
             for events in 0..=2usize {
                 if tier == Tier::Quick && events == 2 && streams == 2 { continue }
                 if tier == Tier::Quick && multi == Some(MultiKind::ML) && events > 1 { continue }
-                let spec = Spec { uni, multi, b: 8, m: 2, streams, action, events, late };
+                let spec = Spec { uni, multi, b: 8, m: 2, streams, action, events, late, recreate: false };
                 let rung = format!("E{events}");
                 let threads = 1 + (events > 0) as usize + streams;
                 let bound = match tier { Tier::Quick => if threads <= 2 { 2 } else { 1 }, Tier::Thorough => if threads <= 2 { 3 } else if threads == 3 { 3 } else { 2 } };
@@ -228,6 +252,22 @@ pub fn scenarios(tier: Tier) -> Vec<ScenarioDef> {
                         (_, Some(k)) => crate::dispatch_multi!(k, sp.b, sp.m, make_multi(sp)),
                         _ => unreachable!() } }) });
             }
+        }
+    }
+    // re-subscription racing the completion of the end request (MAX_STREAMS = 1: the same id comes back)
+    let mut kinds: Vec<(Option<UniKind>, Option<MultiKind>)> = UniKind::ALL.iter().map(|k| (Some(*k), None)).collect();
+    kinds.extend(MultiKind::ALL.iter().map(|k| (None, Some(*k))));
+    for (uni, multi) in kinds {
+        if tier == Tier::Quick && multi == Some(MultiKind::ML) { continue }
+        let kname = match (uni, multi) { (Some(k), _) => format!("uni-{}", k.name()), (_, Some(k)) => format!("multi-{}", k.name()), _ => unreachable!() };
+        for events in 0..=1usize {
+            let spec = Spec { uni, multi, b: 8, m: 1, streams: 1, action: Action::EndOne(0), events, late: false, recreate: true };
+            let bound = match tier { Tier::Quick => 2, Tier::Thorough => 3 };
+            defs.push(ScenarioDef { prop: "C07", family: format!("{kname}/end_stream0/M1-S1-recreate"), rung: format!("E{events}"), rung_idx: events, max_bound: bound,
+                make: Arc::new(move || { let sp = spec.clone(); match (sp.uni, sp.multi) {
+                    (Some(k), _) => crate::dispatch_uni!(k, sp.b, sp.m, make_uni(sp)),
+                    (_, Some(k)) => crate::dispatch_multi!(k, sp.b, sp.m, make_multi(sp)),
+                    _ => unreachable!() } }) });
         }
     }
     defs
